@@ -67,35 +67,70 @@ inductive GoalKind where
   | branch (co : Nat) (pred : Nat) (value : Bool)
   deriving DecidableEq, Repr
 
-/-- Registered predicate: id, code object, CDG node. -/
+/-- Registered predicate (`existing_predicates[id] = PredicateMetaData(code_object_id, node)`). -/
 structure Pred where
   id : Nat
   co : Nat
   node : Nat
-  deriving Repr
+  deriving DecidableEq, Repr
 
-/-- What `_build_graph` needs from one code object's CDG. -/
+/-- What `_build_graph` asks one code object's CDG. -/
 structure CoInfo where
   co : Nat
+  hasNode : Nat → Bool                  -- `node in cdg.graph.nodes`
   rootDep : Nat → Bool                  -- `cdg.is_control_dependent_on_root(node)`
   deps : Nat → List (Nat × Bool)        -- `cdg.get_control_dependencies(node)`
 
 inductive BuildErr where
   | keyError (node : Nat)       -- `nodes_predicates[dependency.node]`
-  | goalNotFound                -- `_goal_to_fitness_function` raised
-  | sanity                      -- the "Root branches" assertion
-  | noPredicate | noCodeObject
+  | goalNotFound                -- `_goal_to_fitness_function` raised RuntimeError
+  | sanity                      -- the "Root branches cannot depend on other branches" assertion
+  | nodeMissing                 -- the predicate's node is not in the CDG (networkx / `assert node in ...`)
+  | noPredicate | noCodeObject  -- `existing_predicates[...]` / `existing_code_objects[...]` KeyError
   deriving Repr, DecidableEq
 
+/-- `_goal_to_fitness_function`: index of the first fitness function with that goal. -/
 def findGoal (goals : List GoalKind) (g : GoalKind) : Option Nat :=
   let k := goals.findIdx (fun x => x == g)
   if k < goals.length then some k else none
 
-def buildOne (goals : List GoalKind) (preds : List Pred) (cos : List CoInfo)
-    (acc : List Goal × List (Goal × Goal)) (i : Nat) (g : GoalKind) :
-    Except BuildErr (List Goal × List (Goal × Goal)) :=
+/-- `Except`-valued map, left to right, stopping at the first error. -/
+def mapE {α β ε : Type} (f : α → Except ε β) : List α → Except ε (List β)
+  | [] => .ok []
+  | a :: as =>
+    match f a with
+    | .error e => .error e
+    | .ok b =>
+      match mapE f as with
+      | .error e => .error e
+      | .ok bs => .ok (b :: bs)
+
+/-- `nodes_predicates[node]` (a dict comprehension over `existing_predicates` restricted to the code
+object: the LAST registered predicate sitting on that node wins). -/
+def nodePred (preds : List Pred) (co node : Nat) : Option Pred :=
+  (preds.filter (fun p => p.co == co && p.node == node)).getLast?
+
+/-- One iteration of `for dependency in dependencies`: the parent fitness function. -/
+def resolveDep (goals : List GoalKind) (preds : List Pred) (co : Nat) (d : Nat × Bool) :
+    Except BuildErr Goal :=
+  match nodePred preds co d.1 with
+  | none => .error (.keyError d.1)
+  | some dp =>
+    match findGoal goals (.branch co dp.id d.2) with
+    | none => .error .goalNotFound
+    | some j => .ok j
+
+/-- What one iteration of the main loop of `_build_graph` contributes for one fitness function:
+whether it is added to `_root_branches`, and the sources of the edges added towards it (in order). -/
+structure Plan where
+  root : Bool
+  parents : List Goal
+  deriving Repr, DecidableEq
+
+def goalPlan (goals : List GoalKind) (preds : List Pred) (cos : List CoInfo) (g : GoalKind) :
+    Except BuildErr Plan :=
   match g with
-  | .branchless _ => .ok (ins acc.1 i, acc.2)
+  | .branchless _ => .ok ⟨true, []⟩
   | .branch _ pid _ =>
     match preds.find? (fun p => p.id == pid) with
     | none => .error .noPredicate
@@ -103,22 +138,157 @@ def buildOne (goals : List GoalKind) (preds : List Pred) (cos : List CoInfo)
       match cos.find? (fun c => c.co == pm.co) with
       | none => .error .noCodeObject
       | some ci =>
-        let roots := if ci.rootDep pm.node then ins acc.1 i else acc.1
-        (ci.deps pm.node).foldlM (fun (a : List Goal × List (Goal × Goal)) (d : Nat × Bool) =>
-          -- nodes_predicates: the LAST registered predicate of this code object sitting on that node
-          match (preds.filter (fun p => p.co == pm.co && p.node == d.1)).getLast? with
-          | none => .error (.keyError d.1)
-          | some dp =>
-            match findGoal goals (.branch pm.co dp.id d.2) with
-            | none => .error .goalNotFound
-            | some j => .ok (a.1, if a.2.contains (j, i) then a.2 else a.2 ++ [(j, i)]))
-          (roots, acc.2)
+        if !ci.hasNode pm.node then .error .nodeMissing
+        else
+          match mapE (resolveDep goals preds pm.co) (ci.deps pm.node) with
+          | .error e => .error e
+          | .ok ps => .ok ⟨ci.rootDep pm.node, ps⟩
 
-def buildGraph (goals : List GoalKind) (preds : List Pred) (cos : List CoInfo) : Except BuildErr GG := do
-  let r ← (goals.zipIdx).foldlM (fun acc (gi : GoalKind × Nat) => buildOne goals preds cos acc gi.2 gi.1)
-    (([] : List Goal), ([] : List (Goal × Goal)))
-  -- sanity check: every goal without incoming edge is a root
-  let ok := (List.range goals.length).all (fun i => r.2.any (fun e => e.2 == i) || r.1.contains i)
-  if ok then .ok ⟨r.1, r.2⟩ else .error .sanity
+/-- `DiGraph.add_edge(parent, child)`: one edge per pair, first insertion fixes the position. -/
+def addEdge (i : Goal) (es : List (Goal × Goal)) (j : Goal) : List (Goal × Goal) :=
+  if es.contains (j, i) then es else es ++ [(j, i)]
+
+/-- Root set and edges accumulated over all fitness functions (in their order). -/
+def assemble (plans : List Plan) : GG :=
+  let ps := plans.zipIdx
+  ⟨ps.foldl (fun r (p : Plan × Nat) => if p.1.root then ins r p.2 else r) [],
+   ps.foldl (fun es (p : Plan × Nat) => p.1.parents.foldl (addEdge p.2) es) []⟩
+
+/-- The sanity check at the end of `_build_graph`: every node of in-degree 0 is a root branch. -/
+def sanityOk (n : Nat) (G : GG) : Bool :=
+  (List.range n).all (fun i => G.edges.any (fun e => e.2 == i) || G.roots.contains i)
+
+def buildGraph (goals : List GoalKind) (preds : List Pred) (cos : List CoInfo) : Except BuildErr GG :=
+  match mapE (goalPlan goals preds cos) goals with
+  | .error e => .error e
+  | .ok plans =>
+    let G := assemble plans
+    if sanityOk goals.length G then .ok G else .error .sanity
+
+/-! ### `InstrumentationTransformer._create_covered_cdg`: removing a node from the CDG -/
+
+open PynguinModel.Cdg (Node Label)
+
+/-- A stored CDG: edges in insertion order, one per (source, target). -/
+abbrev CG := List (Node × Node × Label)
+
+/-- `predecessors.discard(node); successors.discard(node); remove_node(node);
+for pred in predecessors: for succ in successors: add_edge(pred, succ)` — the new edges carry NO
+branch value; an edge that already exists keeps its attributes. -/
+def removeNode (g : CG) (x : Node) : CG :=
+  let ps := ((g.filter (fun e => e.2.1 == x && e.1 != x)).map (fun e => e.1)).eraseDups
+  let ss := ((g.filter (fun e => e.1 == x && e.2.1 != x)).map (fun e => e.2.1)).eraseDups
+  let g' := g.filter (fun e => e.1 != x && e.2.1 != x)
+  (ps.flatMap (fun p => ss.map (fun s => (p, s)))).foldl
+    (fun acc (q : Node × Node) =>
+      if acc.any (fun e => e.1 == q.1 && e.2.1 == q.2) then acc else acc ++ [(q.1, q.2, none)]) g'
+
+def removeNodes (g : CG) (xs : List Node) : CG := xs.foldl removeNode g
+
+/-- `ProgramGraph.entry_node`: the first node (in node order) without incoming edge. -/
+def entryNode (nodes : List Node) (g : CG) : Option Node :=
+  nodes.find? (fun n => !g.any (fun e => e.2.1 == n))
+
+/-! ### Checked certificates for the hypotheses of the reachability theorem
+
+The theorems of `Props/C07.lean` need, per code object: every predicate node is reachable from the
+CDG root; every labelled edge leaving a basic block leaves a *registered* predicate node; and the
+answers `get_control_dependencies` / `is_control_dependent_on_root` gave are the ones the graph
+defines.  These are decided per real module by the checkers below (soundness proved in
+`Lemmas/GoalGraphBuild.lean`); the certificates are found by unverified search. -/
+
+/-- An edge that `_retrieve_control_dependencies` / `_is_control_dependent_on_root` walks through. -/
+def isPass (isBlock : Node → Bool) (e : Node × Node × Label) : Bool := !(isBlock e.1 && e.2.2.isSome)
+
+/-- `S` (latest discovery first) lists nodes that reach `n` backwards along pass edges. -/
+def wfBack (g : CG) (isBlock : Node → Bool) (n : Node) : List Node → Bool
+  | [] => false
+  | [m] => m == n
+  | m :: rest => g.any (fun e => e.1 == m && isPass isBlock e && rest.contains e.2.1) && wfBack g isBlock n rest
+
+/-- `S` is closed under pass predecessors. -/
+def closedBack (g : CG) (isBlock : Node → Bool) (S : List Node) : Bool :=
+  g.all (fun e => !(S.contains e.2.1 && isPass isBlock e) || S.contains e.1)
+
+/-- The control dependencies the graph defines for a node whose backward pass closure is `S`. -/
+def specDeps (g : CG) (isBlock : Node → Bool) (S : List Node) : List (Node × Bool) :=
+  g.filterMap (fun e => if isBlock e.1 && S.contains e.2.1 then e.2.2.map (fun b => (e.1, b)) else none)
+
+/-- Forward reachability certificate from `root` (latest discovery first). -/
+def wfFwd (g : CG) (root : Node) : List Node → Bool
+  | [] => false
+  | [m] => m == root
+  | m :: rest => g.any (fun e => e.2.1 == m && rest.contains e.1) && wfFwd g root rest
+
+/-- Per predicate node: what the implementation answered, plus the closure certificate. -/
+structure NodeAns where
+  node : Node
+  deps : List (Node × Bool)
+  rootDep : Bool
+  back : List Node
+  deriving Repr
+
+/-- One code object as exported from the implementation. -/
+structure CoData where
+  co : Nat
+  nodes : List Node
+  blocks : List Node
+  root : Node
+  g : CG
+  fwd : List Node
+  rank : List (Node × Nat)       -- any ranking of the nodes (the driver uses the pass distance from the root)
+  ans : List NodeAns
+  deriving Repr
+
+def CoData.isBlock (c : CoData) (n : Node) : Bool := c.blocks.contains n
+
+def CoData.rankOf (c : CoData) (n : Node) : Nat :=
+  match c.rank.find? (fun x => x.1 == n) with
+  | some x => x.2
+  | none => 0
+
+def CoData.toInfo (c : CoData) : CoInfo where
+  co := c.co
+  hasNode := fun n => c.nodes.contains n
+  rootDep := fun n => match c.ans.find? (fun a => a.node == n) with
+    | some a => a.rootDep
+    | none => false
+  deps := fun n => match c.ans.find? (fun a => a.node == n) with
+    | some a => a.deps
+    | none => []
+
+def checkAns (c : CoData) (a : NodeAns) : Bool :=
+  c.nodes.contains a.node && c.fwd.contains a.node && a.node != c.root &&
+  wfBack c.g c.isBlock a.node a.back && closedBack c.g c.isBlock a.back &&
+  a.deps.all (fun d => (specDeps c.g c.isBlock a.back).contains d) &&
+  (specDeps c.g c.isBlock a.back).all (fun d => a.deps.contains d) &&
+  -- `is_control_dependent_on_root` marks nodes it meets over labelled edges as visited and may therefore
+  -- miss a pass path from the root; then some control dependency must sit strictly closer to the root
+  (a.rootDep || !a.back.contains c.root ||
+    a.deps.any (fun d => c.rankOf d.1 < c.rankOf a.node &&
+      c.ans.any (fun ap => ap.node == d.1 && ap.back.contains c.root && wfBack c.g c.isBlock ap.node ap.back)))
+
+/-- All hypotheses about one code object (`preds` = all registered predicates). -/
+def checkCo (preds : List Pred) (c : CoData) : Bool :=
+  !c.isBlock c.root && wfFwd c.g c.root c.fwd &&
+  -- every labelled edge leaving a basic block leaves a registered predicate node
+  c.g.all (fun e => isPass c.isBlock e || preds.any (fun p => p.co == c.co && p.node == e.1)) &&
+  -- every registered predicate of this code object has a checked answer
+  preds.all (fun p => p.co != c.co || c.ans.any (fun a => a.node == p.node)) &&
+  c.ans.all (checkAns c)
+
+/-- Hypotheses about the registries (`existing_predicates`, the branch goal pool). -/
+def checkRegistry (goals : List GoalKind) (preds : List Pred) (cos : List CoData) : Bool :=
+  preds.all (fun p => preds.find? (fun q => q.id == p.id) == some p) &&
+  preds.all (fun p => goals.contains (.branch p.co p.id true) && goals.contains (.branch p.co p.id false)) &&
+  preds.all (fun p => (cos.find? (fun c => c.co == p.co)).isSome) &&
+  goals.all (fun g => match g with
+    | .branch c pid _ => match preds.find? (fun p => p.id == pid) with
+      | some pm => pm.co == c
+      | none => false
+    | .branchless _ => true)
+
+def checkModule (goals : List GoalKind) (preds : List Pred) (cos : List CoData) : Bool :=
+  checkRegistry goals preds cos && cos.all (checkCo preds)
 
 end PynguinModel.GoalGraph
